@@ -203,6 +203,23 @@ CLAIMED = {
         note="With caching off the property claims nothing about fetch counts; the model leaves open whether two spellings of "
              "one URL share a cache entry, and the replay accepts any behaviour the model allows.",
         design="5 C15"),
+    "C18": dict(
+        technique="TLA+ Iterators module with one scope stack per validator; TLC enumerates all next()-level interleavings of "
+                  "2-3 iterators over measured scripts (MC_Interleave, invariant Independent, negative control SharedStack); "
+                  "every schedule replayed on real iterators; threaded runs compared with solo runs",
+        text="Each validator owns a resolver and therefore a scope stack; the model advances iterators of different "
+             "validators in every order and TLC checks that what each produces is a prefix of its solo run and that all "
+             "stacks are restored, while the negative control (one stack shared behind their backs) is violated. The "
+             "scripts are measured from the real code for groups of validators chosen to collide on every key a shared "
+             "cache could use (same base URI, same reference strings with different meanings, same nested ids and "
+             "relative references, same remote URL in different stores, same pattern, same format name with different "
+             "functions on default-constructed FormatCheckers, the very same schema object given to two default-"
+             "constructed validators, recursive schemas). Every TLC schedule (quick: all schedules of the small groups, "
+             "a seeded sample of 400 for the large ones) is replayed on real generator objects and compared with the solo "
+             "error sequences; the same members also run in threads with a 1-microsecond switch interval.",
+        note="Thread preemption below next() granularity is only exercised (stress), not enumerated: no shared mutable state "
+             "exists below that granularity in the model.",
+        design="5 C18"),
 }
 
 PENDING_REASON = "check not built yet in this round (framework under construction; DESIGN.md section 8 build order)"
